@@ -44,13 +44,15 @@ def Call.ofTrace (name : String) (a : List String) : Option Call :=
   | "chan_priority_default" => some (.frag 0 1)
   | "expr_identifier" => some (.exprIdentifier (strArg a 0))
   | "expr_location" | "expr_dot" | "expr_post_increment" | "expr_pre_increment" | "expr_post_decrement" | "expr_pre_decrement"
-  | "expr_unary" | "expr_builtin_function1" | "expr_numof" => some (.frag 1 1)
+  | "expr_unary" | "expr_builtin_function1" | "expr_numof" | "expr_MITL_formula" | "expr_MITL_next" | "expr_MITL_atom"
+  | "expr_MITL_diamond" | "expr_MITL_box" => some (.frag 1 1)
   | "expr_call_begin" | "decl_field_init" | "empty_statement" | "for_begin" | "while_begin" | "do_while_begin" | "if_begin"
   | "if_condition" | "if_then" | "proc_priority_inc" | "proc_priority" | "process_list_end" | "done" | "query_begin" | "query_formula"
   | "query_comment" | "query_options" | "query_end" | "expectation_begin" | "expectation_end" | "expectation_value" | "expect_resource"
   | "query_results_begin" | "query_results_end" | "model_option" => some (.frag 0 0)
   | "expr_call_end" | "expr_spawn" => some (.frag (natArg a 0 + 1) 1)
-  | "expr_array" | "expr_assignment" | "expr_binary" | "expr_comma" | "expr_builtin_function2" => some (.frag 2 1)
+  | "expr_array" | "expr_assignment" | "expr_binary" | "expr_comma" | "expr_builtin_function2" | "expr_MITL_until" | "expr_MITL_release"
+  | "expr_MITL_disj" | "expr_MITL_conj" => some (.frag 2 1)
   | "expr_nary" => some (.frag (natArg a 1) 1)
   | "decl_init_list" => some (.frag (natArg a 0) 1)
   | "expr_ternary" | "expr_inline_if" | "expr_builtin_function3" => some (.frag 3 1)
